@@ -81,6 +81,38 @@ def parse_cbmc_json(out):
     return results, msgs, status
 
 
+def parse_cbmc_text(out):
+    """Plain-text result parser (the JSON UI always renders a full trace for every failed obligation — including the
+    canary — which runs out of memory on harnesses with very large symbolic objects)."""
+    results, msgs, status = [], [], None
+    cur_file = cur_fn = None
+    seen_results = False
+    for ln in out.splitlines():
+        if ln.startswith("** Results:"):
+            seen_results = True
+            continue
+        m = re.match(r"^(\S.*) function (\S+)$", ln)
+        if m and seen_results:
+            cur_file, cur_fn = m.group(1), m.group(2)
+            continue
+        m = re.match(r"^\[(\S+)\] (?:file (\S+) )?line (\d+) (.*): (SUCCESS|FAILURE|UNKNOWN|ERROR)$", ln)
+        if m:
+            results.append(dict(property=m.group(1), description=m.group(4), status=m.group(5), file=m.group(2) or cur_file,
+                                line=m.group(3), function=cur_fn, trace=None))
+            continue
+        m = re.match(r"^\[(\S+)\] (.*): (SUCCESS|FAILURE|UNKNOWN|ERROR)$", ln)
+        if m:
+            results.append(dict(property=m.group(1), description=m.group(2), status=m.group(3), file=cur_file, line=None, function=cur_fn, trace=None))
+            continue
+        if "ignoring" in ln or ln.startswith("warning"):
+            msgs.append(ln)
+        if ln.startswith("VERIFICATION "):
+            status = ln.split()[1].lower()
+    if status is None:
+        raise ToolError("cbmc produced no verdict: " + out[-2000:])
+    return results, msgs, status
+
+
 def trace_inputs(trace):
     """Collect the last value assigned to every ghost input (globals named in_*)."""
     vals = {}
@@ -100,7 +132,7 @@ def trace_inputs(trace):
             if d is None:
                 return None
             try:
-                return int(d)
+                return int(re.sub(r"(?i)[ul]+$", "", d)) if isinstance(d, str) else int(d)
             except Exception:
                 if v.get("binary") and v.get("type", "").startswith(("unsigned", "signed", "char", "_Bool", "const")):
                     try:
@@ -147,9 +179,16 @@ def run_job(job, work, tier):
     jid = job["id"]
     d = os.path.join(work, re.sub(r"[^\w.-]", "_", jid))
     os.makedirs(d, exist_ok=True)
+    cur = build_binary(job, work, d, jr, [])
+    if cur is None:
+        return jr
+    return check_binary(job, work, d, jr, cur, tier)
+
+
+def build_binary(job, work, d, jr, extra_defs):
     src = os.path.join(VERIF, "specs", job["src"])
     a = os.path.join(d, "a.gb")
-    defs = ["-DVERIF_CBMC"] + ["-D" + x for x in job.get("defs", [])]
+    defs = ["-DVERIF_CBMC"] + ["-D" + x for x in job.get("defs", []) + extra_defs]
     inc = ["-I" + os.path.join(VERIF, "models"), "-I" + os.path.join(VERIF, "specs", "include"), "-I" + work]
     cmd = ["goto-cc"] + defs + inc + ["--function", job["harness"], src, "-o", a]
     jr.cmds.append(" ".join(cmd))
@@ -157,7 +196,7 @@ def run_job(job, work, tier):
     jr.secs["goto-cc"] = round(s, 2)
     if rc != 0:
         jr.msg = "goto-cc failed (lowering/extraction break):\n" + out[-3000:]
-        return jr
+        return None
     cur = a
     if job.get("unwindset"):
         b = os.path.join(d, "u.gb")
@@ -166,7 +205,7 @@ def run_job(job, work, tier):
         rc, out, s = run(cmd, 600)
         if rc != 0:
             jr.msg = "goto-instrument --unwindset failed:\n" + out[-3000:]
-            return jr
+            return None
         cur = b
     if job.get("enforce") or job.get("loop_contracts") or job.get("replace"):
         b = os.path.join(d, "c.gb")
@@ -183,10 +222,14 @@ def run_job(job, work, tier):
         jr.secs["goto-instrument"] = round(s, 2)
         if rc != 0:
             jr.msg = "goto-instrument --dfcc failed:\n" + out[-3000:]
-            return jr
+            return None
         cur = b
+    return cur
+
+
+def check_binary(job, work, d, jr, cur, tier):
     timeout = int(os.environ.get("VERIF_TIMEOUT", job.get("timeout", 900) * (3 if tier == "thorough" else 1)))
-    cmd = ["cbmc", cur, "--json-ui", "--drop-unused-functions"] + CBMC_CHECKS
+    cmd = ["cbmc", cur, "--drop-unused-functions"] + CBMC_CHECKS
     if job.get("unwind"):
         cmd += ["--unwind", str(job["unwind_thorough"] if tier == "thorough" and job.get("unwind_thorough") else job["unwind"]),
                 "--unwinding-assertions"]
@@ -209,7 +252,7 @@ def run_job(job, work, tier):
         jr.msg = "cbmc exit %d:\n%s" % (rc, out[-3000:])
         return jr
     try:
-        results, msgs, status = parse_cbmc_json(out)
+        results, msgs, status = parse_cbmc_text(out)
     except ToolError as e:
         jr.msg = str(e)
         return jr
@@ -246,6 +289,10 @@ def run_job(job, work, tier):
         jr.status = "ok"
         return jr
     jr.others = others
+    undef = [r for r in failed if "undefined function should be unreachable" in (r["description"] or "")]
+    if undef:
+        jr.msg = "the sliced code calls a function that is not part of this job's units (tool-side, not a violation): %s in %s" % (undef[0]["property"], undef[0].get("function"))
+        return jr
     if undecided and not failed:
         jr.msg = "%d obligations left undecided by cbmc (status %s), e.g. %s" % (len(undecided), undecided[0]["status"], undecided[0]["description"])
         return jr
@@ -274,7 +321,23 @@ def run_job(job, work, tier):
         jr.failed = failed
         # fetch a trace for the first failing obligation
         r0 = failed[0]
-        cmd2 = [c for c in cmd if c != "--json-ui"] + ["--json-ui", "--trace", "--property", r0["property"]]
+        if job.get("small_cex"):
+            # ask for a counterexample that can be materialised natively: same job, sizes bounded by -DSMALL_CEX; if the
+            # obligation does not fail under that bound the unrestricted counterexample is used
+            d2 = d + "_small"
+            os.makedirs(d2, exist_ok=True)
+            jr2 = JobResult(job)
+            b2 = build_binary(job, work, d2, jr2, ["SMALL_CEX"])
+            if b2 is not None:
+                cmdS = [b2 if c == cur else c for c in cmd] + ["--json-ui", "--trace", "--property", r0["property"]]
+                rcS, outS, _ = run(cmdS, timeout)
+                try:
+                    resS, _, _ = parse_cbmc_json(outS)
+                    if any(r["property"] == r0["property"] and r["status"] == "FAILURE" and r.get("trace") for r in resS):
+                        cmd = [b2 if c == cur else c for c in cmd]
+                except ToolError:
+                    pass
+        cmd2 = cmd + ["--json-ui", "--trace", "--property", r0["property"]]
         rc2, out2, s2 = run(cmd2, timeout)
         jr.secs["cbmc-trace"] = round(s2, 2)
         jr.trace_inputs = {}
@@ -286,7 +349,7 @@ def run_job(job, work, tier):
                     jr.trace_inputs = trace_inputs(r["trace"])
         except ToolError:
             pass
-        rc3, out3, _ = run([c for c in cmd if c != "--json-ui"] + ["--trace", "--property", r0["property"]], timeout)
+        rc3, out3, _ = run(cmd + ["--trace", "--property", r0["property"]], timeout)
         jr.trace_text = out3[-6000:]
         return jr
     if not jr.canary_ok:
@@ -382,7 +445,7 @@ def main():
         if violations:
             rc_final = 1
         # 5. evidence
-        if not args.no_evidence and not args.only:
+        if not args.no_evidence and not args.only and not os.environ.get("VERIF_NO_EVIDENCE"):
             write_evidence(prop, spec, args.tier, seed, results, native_reports, manifest, time.time() - t0, violations, rc_final)
         return rc_final
     finally:
